@@ -148,3 +148,13 @@ claim("C16",
       "sequences are not decided.",
       "Trusts tokio channel semantics, fs::rename atomicity (OS), bitflags-generated operators, rustc MIR + extractor.",
       "DESIGN.md §5 C16")
+
+claim("C02",
+      "case-folding symmetry (provenance), loop-exit shape, overwrite lint on name-keyed flattening, exhaustive attribute pairing",
+      "Decides only necessary conditions named in the statement (NOT the equivalence with the specification): every URL comparison in "
+      "Privilege::is_match folds both operands; inside the iteration is_allowed can only return true and the matched flag is monotone, so "
+      "the result is an existential over the iteration, independent of map order; host-supplied lists must not be flattened into "
+      "name-keyed maps with silent last-wins; disabled mode short-circuits before any rule is consulted; every optional attribute of "
+      "Identity/Privilege is tested against its paired claim; dangling names never reach the flattened assignments.",
+      "Trusts rustc MIR + extractor; prefix semantics, query parsing and everything outside these shapes are not decided.",
+      "DESIGN.md §5 C02")
